@@ -535,6 +535,133 @@ theorem getitem_shape {x r : MArr K} {idx : MArr Int} (h : getitemCode x idx = .
   | nil => rw [hs] at h; cases h
   | cons len rest => rw [hs] at h; cases h; rfl
 
+theorem getD_mem {α : Type} {l : List α} {j : Nat} {d : α} (h : j < l.length) : l.getD j d ∈ l := by
+  induction l generalizing j with
+  | nil => simp at h
+  | cons a as ih =>
+    cases j with
+    | zero => simp
+    | succ n => simpa using Or.inr (ih (by simpa using h))
+
+theorem ni_index_bool {x x' : MArr K} {b b' : MArr Bool} (hx : ALow x x') (hb : ALow b b') :
+    RLowA (getitemBoolCode x b) (getitemBoolCode x' b') := by
+  unfold getitemBoolCode
+  rw [← hx.1, ← hb.1]
+  cases hs : x.shape with
+  | nil => rfl
+  | cons len rest =>
+    cases hbs : b.shape with
+    | nil => rfl
+    | cons n tl =>
+      cases tl with
+      | cons _ _ => rfl
+      | nil =>
+        simp only []
+        by_cases hn : (n != len) = true
+        · simp [hn]; rfl
+        · simp only [hn]
+          have hnl : n = len := by simpa using hn
+          have hsel : ∀ p ∈ List.range len, ((b.get [p]).v || (b.get [p]).m) = ((b'.get [p]).v || (b'.get [p]).m) := by
+            intro p hp
+            have hv : Valid b.shape [p] := by
+              rw [hbs, hnl]; exact ⟨List.mem_range.1 hp, trivial⟩
+            have hc := hb.2 [p] hv
+            cases hm : (b.get [p]).m with
+            | true => have hm' : (b'.get [p]).m = true := by rw [← hc.1, hm]
+                      simp [hm']
+            | false => rw [← hc.eq_of_unmasked hm]; simp [hm]
+          have hpos : ((List.range len).filter fun p => (b.get [p]).v || (b.get [p]).m)
+              = ((List.range len).filter fun p => (b'.get [p]).v || (b'.get [p]).m) :=
+            List.filter_congr hsel
+          rw [← hpos]
+          refine ⟨rfl, fun i hv => ?_⟩
+          match i, hv with
+          | [], hv => exact hv.elim
+          | j :: r, hv =>
+            have hfacts : ∀ q ∈ ((List.range len).filter fun p => (b.get [p]).v || (b.get [p]).m), q < len :=
+              fun q hq => List.mem_range.1 (List.mem_filter.1 hq).1
+            have hj : j < ((List.range len).filter fun p => (b.get [p]).v || (b.get [p]).m).length := hv.1
+            generalize ((List.range len).filter fun p => (b.get [p]).v || (b.get [p]).m) = pos at hj hfacts
+            have hplen : pos.getD j 0 < len := hfacts _ (getD_mem hj)
+            have hvx : Valid x.shape (pos.getD j 0 :: r) := by rw [hs]; exact ⟨hplen, hv.2⟩
+            have hvb : Valid b.shape [pos.getD j 0] := by rw [hbs, hnl]; exact ⟨hplen, trivial⟩
+            have hcx := hx.2 _ hvx
+            have hcb := hb.2 _ hvb
+            show CLow ⟨(x.get (pos.getD j 0 :: r)).v, (x.get (pos.getD j 0 :: r)).m || (b.get [pos.getD j 0]).m⟩
+                      ⟨(x'.get (pos.getD j 0 :: r)).v, (x'.get (pos.getD j 0 :: r)).m || (b'.get [pos.getD j 0]).m⟩
+            rw [← hcb.1]
+            cases hmb : (b.get [pos.getD j 0]).m with
+            | true => exact CLow.of_masked (by simp) (by simp)
+            | false => simp only [Bool.or_false]; exact ⟨hcx.1, hcx.2⟩
+
+theorem getitemBool_shape {x r : MArr K} {b : MArr Bool} (h : getitemBoolCode x b = .ok r) (x' : MArr K)
+    (hs : x'.shape = x.shape) : ∀ r', getitemBoolCode x' b = .ok r' → r'.shape = r.shape := by
+  intro r' h'
+  unfold getitemBoolCode at h h'
+  rw [hs] at h'
+  cases hxs : x.shape with
+  | nil => rw [hxs] at h; cases h
+  | cons len rest =>
+    rw [hxs] at h h'
+    cases hbs : b.shape with
+    | nil => rw [hbs] at h; cases h
+    | cons n tl =>
+      rw [hbs] at h h'
+      cases tl with
+      | cons _ _ => cases h
+      | nil =>
+        simp only [] at h h'
+        by_cases hn : (n != len) = true
+        · simp [hn] at h
+        · simp only [hn] at h h'
+          cases h; cases h'; rfl
+
+theorem getitemBoolObj_congr {x y : Obj K} (h : LowEq x y) {b b' : MArr Bool} (hb : ALow b b') :
+    RLow (getitemBoolObj x b) (getitemBoolObj y b') := by
+  have hm := ni_index_bool h.1 hb
+  have h2 := h.2
+  unfold getitemBoolObj
+  cases e1 : getitemBoolCode x.main b with
+  | error e =>
+    cases e2 : getitemBoolCode y.main b' with
+    | error e' => rw [e1, e2] at hm; exact hm
+    | ok r' => rw [e1, e2] at hm; exact hm.elim
+  | ok r =>
+    cases e2 : getitemBoolCode y.main b' with
+    | error e' => rw [e1, e2] at hm; exact hm.elim
+    | ok r' =>
+      rw [e1, e2] at hm
+      have hm : ALow r r' := hm
+      cases hx : x.d with
+      | none =>
+        cases hy : y.d with
+        | none => exact ⟨hm, trivial⟩
+        | some dy => rw [hx, hy] at h2; exact h2.elim
+      | some dx =>
+        cases hy : y.d with
+        | none => rw [hx, hy] at h2; exact h2.elim
+        | some dy =>
+          rw [hx, hy] at h2
+          have h2' : dx.shape = x.main.shape ∧ ALow dx dy := h2
+          have hd := ni_index_bool h2'.2 hb
+          show RLow (match getitemBoolCode dx b with
+                     | .error e => .error e
+                     | .ok rd => .ok ⟨r, some rd⟩)
+                    (match getitemBoolCode dy b' with
+                     | .error e => .error e
+                     | .ok rd => .ok ⟨r', some rd⟩)
+          cases e3 : getitemBoolCode dx b with
+          | error e =>
+            cases e4 : getitemBoolCode dy b' with
+            | error e' => rw [e3, e4] at hd; exact hd
+            | ok _ => rw [e3, e4] at hd; exact hd.elim
+          | ok rd =>
+            cases e4 : getitemBoolCode dy b' with
+            | error e' => rw [e3, e4] at hd; exact hd.elim
+            | ok rd' =>
+              rw [e3, e4] at hd
+              exact ⟨hm, getitemBool_shape e1 dx h2'.1 rd e3, hd⟩
+
 /-! ### ni_stack, ni_shrink, ni_pickle -/
 
 theorem ni_stack {a a' b b' : MArr K} (hs : a.shape = b.shape) (ha : ALow a a') (hb : ALow b b') :
@@ -1077,7 +1204,7 @@ theorem shrinkUnshrinkObj_congr {x y : Obj K} (h : LowEq x y) (am : Arr Bool) :
 
 /-- low-equivalent environments -/
 def EnvLow (e e' : Env K) : Prop :=
-  F2 LowEq e.objs e'.objs ∧ F2 ALow e.idxs e'.idxs ∧ e.ams = e'.ams ∧ e.consts = e'.consts
+  F2 LowEq e.objs e'.objs ∧ F2 ALow e.idxs e'.idxs ∧ e.ams = e'.ams ∧ e.consts = e'.consts ∧ F2 ALow e.bidxs e'.bidxs
 
 theorem getD_forall2 {α : Type} {R : α → α → Prop} {l l' : List α} (h : F2 R l l') (i : Nat)
     (d d' : α) (hd : R d d') : R (l.getD i d) (l'.getD i d') := by
@@ -1115,6 +1242,7 @@ inductive Safe : Expr → Prop
   | mwW {k : CmpKind} {il : Nat} {ir : Option Nat} {e : Expr} : Safe e → Safe (.mw k il ir true (.un .wod e))
   | clipT {ilo ihi : Nat} {e : Expr} : Safe e → Safe (.clip ilo ihi true e)
   | clipW {ilo ihi : Nat} {e : Expr} : Safe e → Safe (.clip ilo ihi false (.un .wod e))
+  | indexB {e : Expr} {bv : Nat} : Safe e → Safe (.indexB e bv)
 
 /-- one evaluation step through a total object function -/
 theorem step_congr {r r' : Except Err (Obj K)} {f g : Obj K → Obj K} (hc : RLow r r')
@@ -1178,11 +1306,11 @@ theorem ni_program_low (hs : SafeConsts P) {env env' : Env K} (h : EnvLow env en
     exact step_congr ih fun x y hxy _ => shrinkUnshrinkObj_congr P hxy _
   | @powG ik ikm1 e _ ih =>
     simp only [eval]
-    rw [h.2.2.2]
+    rw [h.2.2.2.1]
     exact step_congr ih fun x y hxy _ => powObj_congr P _ _ hxy
   | @mwF k il ir e _ ih =>
     simp only [eval]
-    rw [h.2.2.2]
+    rw [h.2.2.2.1]
     exact step_congr ih fun x y hxy _ => mwObj_congr_false P k _ _ hxy
   | @mwW k il ir e _ ih =>
     have hw : RLow (eval P env (.un .wod e)) (eval P env' (.un .wod e)) := by
@@ -1192,11 +1320,11 @@ theorem ni_program_low (hs : SafeConsts P) {env env' : Env K} (h : EnvLow env en
     have hn : ∀ x, eval P env (.un .wod e) = .ok x → x.d = none := fun x hx => wod_result P hx
     generalize Expr.un UOp.wod e = c at hw hn
     simp only [eval]
-    rw [h.2.2.2]
+    rw [h.2.2.2.1]
     exact step_congr hw fun x y hxy hx => mwObj_congr_noD P k _ _ true hxy (hn x hx)
   | @clipT ilo ihi e _ ih =>
     simp only [eval]
-    rw [h.2.2.2]
+    rw [h.2.2.2.1]
     exact step_congr ih fun x y hxy _ => clipObj_congr_true P _ _ hxy
   | @clipW ilo ihi e _ ih =>
     have hw : RLow (eval P env (.un .wod e)) (eval P env' (.un .wod e)) := by
@@ -1206,8 +1334,13 @@ theorem ni_program_low (hs : SafeConsts P) {env env' : Env K} (h : EnvLow env en
     have hn : ∀ x, eval P env (.un .wod e) = .ok x → x.d = none := fun x hx => wod_result P hx
     generalize Expr.un UOp.wod e = c at hw hn
     simp only [eval]
-    rw [h.2.2.2]
+    rw [h.2.2.2.1]
     exact step_congr hw fun x y hxy hx => clipObj_congr_noD P _ _ false hxy (hn x hx)
+
+  | @indexB e bv _ ih =>
+    simp only [eval]
+    cases h1 : eval P env e <;> cases h2 : eval P env' e <;> simp_all [RLow]
+    exact getitemBoolObj_congr ih (getD_forall2 h.2.2.2.2 bv _ _ (ALow.refl _))
 
 /-- **ni_program**: the observations (shape, expanded mask, unmasked values, unmasked derivative
     values, or the exception) of the two runs are EQUAL -/
